@@ -315,4 +315,25 @@ theorem i_from_radix_eq (w n : Nat) (buf : List Nat) (r : Nat) :
     II.fromRadixBe w n buf r = UI.fromRadixBe w n buf r ∧
     II.fromRadixLe w n buf r = UI.fromRadixLe w n buf r := ⟨rfl, rfl⟩
 
+/-! `parse_str_radix` (the panicking `const` twin, outside the property's list but part of the same
+    API): it returns `x` exactly when `from_str_radix` returns `Ok(x)` and panics in every other
+    case, so with the theorems above it accepts exactly the representable numerals. -/
+theorem u_parse_str_radix_iff (w n : Nat) (s : List Nat) (r : Nat) (x : List Nat) :
+    UI.parseStrRadix w n s r = .ok x ↔ UI.fromStrRadix w n s r = .ok (.ok x) := by
+  unfold UI.parseStrRadix
+  cases h : UI.fromStrRadix w n s r with
+  | panic => simp
+  | ok p => cases p <;> simp
+example : UI.parseStrRadix 8 2 [0x2b, 0x30, 0x31, 0x32, 0x33, 0x34] 10 = .ok [210, 4]
+    ∧ UI.parseStrRadix 8 1 [0x32, 0x35, 0x36] 10 = .panic := by decide
+
+theorem i_parse_str_radix_iff (w n : Nat) (s : List Nat) (r : Nat) (x : List Nat) :
+    II.parseStrRadix w n s r = .ok x ↔ II.fromStrRadix w n s r = .ok (.ok x) := by
+  unfold II.parseStrRadix
+  cases h : II.fromStrRadix w n s r with
+  | panic => simp
+  | ok p => cases p <;> simp
+example : II.parseStrRadix (2 ^ 3) 1 [0x2d, 0x31, 0x32, 0x38] 10 = .ok [128]
+    ∧ II.parseStrRadix (2 ^ 3) 1 [0x31, 0x32, 0x38] 10 = .panic := by decide
+
 end Bnum.C10
